@@ -189,8 +189,17 @@ pub fn parse_select(toks: &[&str]) -> Option<(msi::Select, usize)> {
     };
     let (mut sel, n) = parse_join(&toks[pos..])?;
     pos += n;
+    // the projection is what the LAST `columns()` call says (an empty list = every column):
+    // built the direct way or by overriding an earlier call, depending on the query
+    let roundabout = (toks.len() + cols.len()) % 2 == 1;
     if !cols.is_empty() {
-        sel = sel.columns(&cols);
+        if roundabout {
+            sel = sel.columns(&cols[..1]).columns(&cols);
+        } else {
+            sel = sel.columns(&cols);
+        }
+    } else if roundabout {
+        sel = sel.columns(&["Overridden"]).columns(&Vec::<String>::new());
     }
     if let Some(e) = cond {
         // a conjunction at the top is handed over in two `with()` calls (which AND their
@@ -270,6 +279,13 @@ pub fn rows_reply(rows: msi::Rows) -> String {
     }
     if left != 0 {
         note(format!("iteration ended with {left} of the {n} reported rows missing"));
+    }
+    // positioned past the end (nth / skip / step_by do this): still nothing left, length 0
+    if rows.nth(2).is_some() || rows.next().is_some() {
+        note("a row after the last one".into());
+    }
+    if rows.size_hint() != (0, Some(0)) || rows.len() != 0 {
+        note(format!("size_hint {:?} after the last row", rows.size_hint()));
     }
     match flaw {
         None => format!("cols={} n={} {}", cols, n, parts.join(" ")),
